@@ -64,6 +64,16 @@ public:
 
   void fireParameterChanged(const ParameterList& parameters);
 
+  /**
+   * @return The offset of the distribution (0 by default).
+   */
+  double getOffset() const { return offset_; }
+
+  /**
+   * @return true if the offset is a parameter of the distribution, false if it is fixed.
+   */
+  bool hasOffsetParameter() const { return hasParameter("offset"); }
+
   double randC() const
   {
     double x = RandomTools::randGamma(getParameterValue("alpha"),
